@@ -2,7 +2,7 @@ SPECIFICATION Spec
 INVARIANT Inv
 CHECK_DEADLOCK FALSE
 CONSTANTS
-  MaxLen = 5
+  MaxLen = 4
   Prefix <- PExtend
   Suffix <- PNone
   Alphabet = {"type", "interface", "union", "enum", "input", "scalar", "schema", "n1", "@", "{", "}", "=", "|", "&", "implements", ":", "query"}
